@@ -458,7 +458,7 @@ NLW2_SOLReadResultCode SOLReader2<SOLHandler>::bsufread(FILE* f) {
       return NLW2_SOLRead_Bad_Suffix;
     if (fread(&SR.h, sizeof(SufHead), 1, f) != 1)
       return ReportEarlyEof();
-    SR.tablines = SR.h.tablen - 1;
+    SR.tablines = SR.h.tablen > 0 ? SR.h.tablen - 1 : 0;
     if (strncmp(SR.h.sufid, "\nSuffix\n", 8)
         || sufheadcheck(&SR))
       return NLW2_SOLRead_Bad_Suffix;
@@ -499,7 +499,9 @@ Lget(char **sp, int *Lp)
     return 1;
   L = c - '0';
   while((c = *s) >= '0' && c <= '9') {
-    L = 10*L + c - '0';
+    if (L > 214748363)    // next digit would overflow int
+      return 1;
+    L = 10*L + (c - '0');
     s++;
   }
   *Lp = L;
@@ -539,6 +541,7 @@ NLW2_SOLReadResultCode SOLReader2<SOLHandler>::gsufread(FILE* f) {
     if (sufheadcheck(&SR))
       return ReportBadLine(buf);
     if (!fgets(buf, sizeof(buf)-1, f)
+        || strlen(buf) < (size_t)SR.h.namelen   // name line shorter than stated
         || (buf[SR.h.namelen-1] != '\n'
             && (buf[SR.h.namelen-1] != '\r'
                 || buf[SR.h.namelen] != '\n')))
@@ -590,6 +593,8 @@ int SOLReader2<SOLHandler>::sufheadcheck(SufRead* sr) {
   if (sr->h.kind < 0 || sr->h.kind > 15 || n < 0 || sr->h.namelen < 2
    || sr->h.tablen < 0)
     return 1;
+  if (sr->h.namelen > 0x0fffffff || sr->h.tablen > 0x0fffffff)
+    return 1;             // sizes below must not overflow int
   i = (int)sr->h.kind & 3;
   if (sr->h.tablen
    && (sr->tablines > sr->h.tablen + 1 || sr->tablines < 1))
